@@ -24,11 +24,22 @@ from .world import FAMILY, Watchdog
 KNOWN_OPEN = set()
 ATTRS = ("foo", "bar")
 MISSING = object()
+NAN = float("nan")  # one shared object: `is` holds, `==` does not
+
+
+def pyval(spec):
+    """Attribute/query values are plain JSON data, except {'py': 'NAN'}: the shared not-a-number object."""
+    if isinstance(spec, dict):
+        return NAN
+    return spec
+
+
+VALUES = (0, 1, 2, "a", None, "50%", "%s", {"py": "NAN"})
 MODS = (("search", search), ("cachedsearch", cachedsearch))
 
 
 def gen_cfg(rng, prop, tier):
-    cfg = struct.gen_cfg(rng, "C02", tier)
+    cfg = struct.gen_cfg(rng, "C02", tier, allow_big=False)
     cfg["prop"] = "C14"
     menu = rng.choice((("HNode",), ("HAny",), ("HNode", "HAny", "HMix"), ("HLight",), ("HLightDict",),
                        ("HNodeBag",), ("HNodeNo",), ("HLightNo", "HLight"), ("HNodeEq",)))
@@ -43,7 +54,7 @@ def gen_cfg(rng, prop, tier):
     cfg["a_rate"] = rng.choice((0.1, 0.2, 0.3))
     cfg["attrs"] = list(ATTRS) + (["foo.bar"] if cfg["family"] == "node" and rng.random() < 0.3 else [])
     cfg["init_attrs"] = [
-        {k: rng.choice((0, 1, 2, "a", None)) for k in cfg["attrs"] if rng.random() < 0.5} for _ in cfg["classes"]
+        {k: rng.choice(VALUES) for k in cfg["attrs"] if rng.random() < 0.5} for _ in cfg["classes"]
     ]
     return cfg
 
@@ -85,15 +96,15 @@ def gen_query(rng, world, snap, attrs, qid, names=ATTRS):
         if r < 0.4:
             q["f"] = ["idx", sorted(i for i in range(n) if rng.random() < 0.5)]
         elif r < 0.8:
-            q["f"] = ["attr", rng.choice(tuple(names) + ("name",)), rng.choice((0, 1, 2, "a", "n1", None))]
+            q["f"] = ["attr", rng.choice(tuple(names) + ("name",)), rng.choice(VALUES + ("n1",))]
         else:
             q["f"] = None
         q["stop"] = sorted(i for i in range(n) if rng.random() < 0.2) if rng.random() < 0.4 else None
     else:
         q["name"] = rng.choice(tuple(names) + ("name", "nope"))
-        q["value"] = rng.choice((0, 1, 2, "a", "n0", "n1", "n2", None))
+        q["value"] = rng.choice(VALUES + ("n0", "n1", "n2"))
         q["dflt"] = rng.random() < 0.3 and q["name"] == "name"
-    q["pos"] = rng.choice((0, 0, 1, 2, 3))
+    q["pos"] = rng.choice((0, 0, 1, 2, 3, 4, 5))
     if fn.startswith("findall"):
         # bounds around the current match count
         cnt = len(reference(q, snap, attrs))
@@ -113,11 +124,11 @@ def reference(q, snap, attrs):
             fset = set(f[1])
             flt = lambda i: i in fset  # noqa: E731
         else:
-            name, value = f[1], f[2]
+            name, value = f[1], pyval(f[2])
             flt = lambda i: attrs[i].get(name, MISSING) == value  # noqa: E731
         stopset = set(q["stop"] or ())
     else:
-        name, value = q["name"], q["value"]
+        name, value = q["name"], pyval(q["value"])
         flt = lambda i: name in attrs[i] and attrs[i][name] == value  # noqa: E731
         stopset = set()
     return ref_preorder(snap, q["s"], flt, stopset, q["ml"])
@@ -139,7 +150,7 @@ def build_call(q, world, cache):
                 fset = frozenset(f[1])
                 ff = lambda nd: ix(nd) in fset  # noqa: E731
             else:
-                name, value = f[1], f[2]
+                name, value = f[1], pyval(f[2])
                 ff = lambda nd: getattr(nd, name, MISSING) == value  # noqa: E731
             if q.get("stop") is None:
                 sf = None
@@ -151,7 +162,7 @@ def build_call(q, world, cache):
         if fn == "findall":
             order += [("mincount", q.get("min")), ("maxcount", q.get("max"))]
     else:
-        order = [("value", q["value"])]
+        order = [("value", pyval(q["value"]))]
         if not q.get("dflt"):
             order.append(("name", q["name"]))
         order.append(("maxlevel", q["ml"]))
@@ -179,8 +190,8 @@ def run(cfg, ops=None, rng=None):
     for i, node in enumerate(world.nodes):
         a = {"name": "n%d" % i}
         for k, v in sorted(cfg["init_attrs"][i].items()):
-            setattr(node, k, v)
-            a[k] = v
+            setattr(node, k, pyval(v))
+            a[k] = pyval(v)
         attrs.append(a)
     h = hashlib.blake2b(digest_size=16)
     h.update(repr(sorted((k, repr(v)) for k, v in cfg.items())).encode())
@@ -208,7 +219,7 @@ def run(cfg, ops=None, rng=None):
                     if k in attrs[i] and rng.random() < 0.3:
                         op = {"op": "delattr", "n": i, "k": k}
                     else:
-                        op = {"op": "setattr", "n": i, "k": k, "v": rng.choice((0, 1, 2, "a", None))}
+                        op = {"op": "setattr", "n": i, "k": k, "v": rng.choice(VALUES)}
                 else:
                     op = gen_op(rng, model, cfg, step)
                 res.ops.append(op)
@@ -217,8 +228,8 @@ def run(cfg, ops=None, rng=None):
             res.bump("ops")
             if kind == "setattr":
                 if op["n"] < n:
-                    setattr(world.nodes[op["n"]], op["k"], op["v"])
-                    attrs[op["n"]][op["k"]] = op["v"]
+                    setattr(world.nodes[op["n"]], op["k"], pyval(op["v"]))
+                    attrs[op["n"]][op["k"]] = pyval(op["v"])
                     res.bump("attr_writes")
                 continue
             if kind == "delattr":
